@@ -6,7 +6,7 @@ from .props.base import Violation
 from .props import c02
 
 AWKWARD = ["plain doc", "quote ' and \" inside", "back\\slash", "two\nlines", "ends with quote'", "tab\there", "triple ''' inside",
-           "unicode éß"]
+           "unicode éß", "C:\\temp\\new", "ends with dq\"", "has \"\"\" inside", "\\"]
 
 
 def swarm(rng, faults):
